@@ -112,6 +112,8 @@ def prefix_sid(tokeniser: Any) -> PrefixSid:  # noqa: C901
                 if value == ',':
                     continue
                 if value == '(':
+                    # (base and srange outlived the tuple: `( 100,200 ), ( 300 )` was accepted as ( 300,200 ))
+                    base = srange = None
                     while True:
                         value = tokeniser()
                         if value == '':
@@ -127,6 +129,8 @@ def prefix_sid(tokeniser: Any) -> PrefixSid:  # noqa: C901
                         else:
                             base = value
                 if value == ')':
+                    if base is None or srange is None:
+                        raise ValueError('an SRGB is written ( base,range )')
                     srgb_data.append((base, srange))
                     continue
                 if value == ']':
